@@ -418,6 +418,11 @@ func genMptMap(fixedVersion bool) func(r *rand.Rand, tier string, idx int) []str
 	return func(r *rand.Rand, tier string, idx int) []string {
 		stores := []string{"mem", "level", "pndb"}
 		ver := int64(r.Intn(5))
+		if r.Intn(5) == 0 {
+			// boundary versions: every byte of the 8-byte little-endian origin must matter
+			big := []int64{1 << 8, 1 << 16, 1<<31 - 1, 1 << 31, 1<<32 - 1, 1 << 32, 1<<32 + 1, 1 << 40, 1 << 48, 1 << 56, 1<<62 + 12345, 1<<63 - 3}
+			ver = big[r.Intn(len(big))]
+		}
 		ops := []string{fmt.Sprintf("new %s %d", stores[idx%3], ver)}
 		alpha := pathAlphabets[r.Intn(len(pathAlphabets))]
 		maxOps := 14
